@@ -1025,6 +1025,7 @@ impl<T: Serialize + for<'de> Deserialize<'de> + Clone + PartialEq + Send + Sync 
 
         let mut entries_recovered = 0u64;
         let mut buffer = Vec::new();
+        let file_len = file.metadata().map(|m| m.len()).unwrap_or(0);
 
         loop {
             // Read entry size
@@ -1036,6 +1037,21 @@ impl<T: Serialize + for<'de> Deserialize<'de> + Clone + PartialEq + Send + Sync 
             }
 
             let entry_size = u32::from_le_bytes(size_bytes) as usize;
+
+            // A length that reaches past the end of the file is a torn or damaged
+            // record: never allocate for it (a garbage prefix asks for up to 4 GiB),
+            // and nothing after it can be framed.
+            let position = file.stream_position().unwrap_or(file_len);
+            if entry_size as u64 > file_len.saturating_sub(position) {
+                stats.corruption_events.push(CorruptionEvent {
+                    file_path: path.to_path_buf(),
+                    corruption_type: CorruptionType::IncompleteWrite,
+                    offset: position.saturating_sub(4),
+                    recovery_action: RecoveryAction::Skipped,
+                });
+                stats.entries_failed += 1;
+                break;
+            }
 
             // Read entry data
             buffer.resize(entry_size, 0);
@@ -1290,6 +1306,14 @@ impl<T: Serialize + for<'de> Deserialize<'de> + Clone + PartialEq + Send + Sync 
         })?;
 
         let header_size = u32::from_le_bytes(size_bytes) as usize;
+        let file_len = file.metadata().map(|m| m.len()).unwrap_or(0);
+        if header_size as u64 > file_len.saturating_sub(4) {
+            return Err(P2PError::Storage(StorageError::Database(
+                "Snapshot header length exceeds file size"
+                    .to_string()
+                    .into(),
+            )));
+        }
 
         // Read header
         let mut header_data = vec![0u8; header_size];
@@ -1367,6 +1391,7 @@ impl<T: Serialize + for<'de> Deserialize<'de> + Clone + PartialEq + Send + Sync 
 
         let mut max_transaction_id = 0u64;
         let mut buffer = Vec::new();
+        let file_len = file.metadata().map(|m| m.len()).unwrap_or(0);
 
         loop {
             // Read entry size
@@ -1378,6 +1403,12 @@ impl<T: Serialize + for<'de> Deserialize<'de> + Clone + PartialEq + Send + Sync 
             }
 
             let entry_size = u32::from_le_bytes(size_bytes) as usize;
+            let position = file.stream_position().unwrap_or(file_len);
+            if entry_size as u64 > file_len.saturating_sub(position) {
+                return Err(P2PError::Storage(StorageError::Database(
+                    "WAL record length exceeds file size".to_string().into(),
+                )));
+            }
 
             // Read entry data
             buffer.resize(entry_size, 0);
